@@ -6,7 +6,7 @@ From SCC Require Import Base.Sexp Lang.CoreSyn Lang.AxSyn Sem.FsCheck Sem.AxChec
      Proof.ShrinkSimProg Proof.ShrinkExample2.
 From SCC Require Sem.CoreSem.
 Import ListNotations.
-Open Scope Z_scope.
+Local Open Scope Z_scope.
 
 Definition frag2_expected (n : Z) : obs :=
   ([(false, 7); (true, if Z.eqb n 0 then 0 else n + 1); (true, 2); (false, 5);
